@@ -695,6 +695,15 @@ func (x *VC) applyContract(callee *ssa.Function, c *Contract, key string, sig *t
 			before.Expect = "sat"
 		}
 	}
+	// a contract of a pointer-receiver method is verified under the implicit precondition
+	// `receiver != nil` (verifyFunc), so every call by contract owes it
+	if callee != nil && x.specMode == 0 && !c.Extern && c.Trusted == "" && callee.Signature.Recv() != nil && len(args) > 0 && args[0].K == KScalar {
+		if _, ok := callee.Signature.Recv().Type().Underlying().(*types.Pointer); ok {
+			nn := sNot(sEq(args[0].T, "0"))
+			x.addObl("requires@"+key, "receiver != nil", pos, reach, nn)
+			x.assume(reach, nn)
+		}
+	}
 	for _, r := range c.Requires {
 		cond := x.evalSpec(r.E, env)
 		lbl := r.Label
